@@ -2,6 +2,9 @@
 From Coq Require Import List ZArith QArith Qcanon Bool Arith.
 From Dimod Require Import Base.Util Model.Poly Model.HPoly Model.View
   Proofs.PolyFacts Proofs.HPolyFacts Proofs.ViewFacts.
+From Dimod Require Model.Adj Model.AdjSubstAll Proofs.AdjSubstAllFacts.
+From Dimod Require Gen.Gen_PyBQM Model.PyBqm Proofs.PyBqmFacts Model.IsingQubo Proofs.IsingQuboFacts.
+From Dimod Require Model.Samples Proofs.SamplesFacts Model.SSet Model.SSetVartype Proofs.SSetVartypeFacts.
 Import ListNotations.
 Open Scope Qc_scope.
 
@@ -75,6 +78,195 @@ Theorem C02_view_offset :
     view_offset d base = energy base (fun _ => match d with BinOverSpin => - (1) | SpinOverBin => half end).
 Proof. exact view_offset_is_energy_at_zero. Qed.
 Print Assumptions C02_view_offset.
+
+(* ---------- abc.h substitute_variables / binary_quadratic_model.h change_vartype on the adjacency
+   structure (deepening round): all variables at once, quad_offset_mp = c*c/2 applied on both stored copies ---------- *)
+Theorem C02_adjacency_substitute_variables_energy :
+  forall k c (m : Adj.qm),
+    Adj.Inv m -> (forall u, (u < Adj.nvars m)%nat -> Adj.has_interaction m u u = false) ->
+    forall s, Adj.energy_adj (AdjSubstAll.substitute_variables k c m) s = Adj.energy_adj m (fun i => k * s i + c).
+Proof. exact AdjSubstAllFacts.substitute_variables_energy. Qed.
+Print Assumptions C02_adjacency_substitute_variables_energy.
+
+Theorem C02_adjacency_substitute_variables_Inv :
+  forall k c (m : Adj.qm), Adj.Inv m -> Adj.Inv (AdjSubstAll.substitute_variables k c m).
+Proof. exact AdjSubstAllFacts.substitute_variables_Inv. Qed.
+Print Assumptions C02_adjacency_substitute_variables_Inv.
+
+(* BQM.change_vartype (C++): binary -> spin, spin -> binary, same vartype *)
+Theorem C02_bqm_change_vartype_energy :
+  (forall (m : Adj.qm) s, Adj.Inv m -> AdjSubstAllFacts.is_bqm BINARY m ->
+     Adj.energy_adj (AdjSubstAll.bqm_change_vartype SPIN m) s = Adj.energy_adj m (fun i => (s i + 1) * half)) /\
+  (forall (m : Adj.qm) s, Adj.Inv m -> AdjSubstAllFacts.is_bqm SPIN m ->
+     Adj.energy_adj (AdjSubstAll.bqm_change_vartype BINARY m) s = Adj.energy_adj m (fun i => two * s i - 1)) /\
+  (forall t (m : Adj.qm) s, Adj.Inv m -> AdjSubstAllFacts.is_bqm t m ->
+     Adj.energy_adj (AdjSubstAll.bqm_change_vartype t m) s = Adj.energy_adj m s).
+Proof. exact AdjSubstAllFacts.bqm_change_vartype_energy. Qed.
+Print Assumptions C02_bqm_change_vartype_energy.
+
+Theorem C02_bqm_change_vartype_Inv :
+  forall t (m : Adj.qm),
+    Adj.Inv m -> (forall u, (u < Adj.nvars m)%nat -> Adj.is_binspin (Adj.vt_at m u) = true) ->
+    Adj.Inv (AdjSubstAll.bqm_change_vartype t m).
+Proof. exact AdjSubstAllFacts.bqm_change_vartype_Inv. Qed.
+Print Assumptions C02_bqm_change_vartype_Inv.
+
+(* there and back restores every stored coefficient exactly (rational arithmetic) *)
+Theorem C02_bqm_change_vartype_roundtrip :
+  (forall (m : Adj.qm), Adj.Inv m -> (forall x, In x (Adj.vts m) -> x = BINARY) ->
+     AdjSubstAll.bqm_change_vartype BINARY (AdjSubstAll.bqm_change_vartype SPIN m) = m) /\
+  (forall (m : Adj.qm), Adj.Inv m -> (forall x, In x (Adj.vts m) -> x = SPIN) ->
+     AdjSubstAll.bqm_change_vartype SPIN (AdjSubstAll.bqm_change_vartype BINARY m) = m).
+Proof. exact AdjSubstAllFacts.bqm_change_vartype_roundtrip. Qed.
+Print Assumptions C02_bqm_change_vartype_roundtrip.
+
+(* the no-self-loop hypothesis is necessary: substitute_variables is only right for BQM-shaped models
+   (its only callers inside dimod are the two in BinaryQuadraticModel::change_vartype) *)
+Theorem C02_substitute_variables_self_loop_refuted :
+  exists (m : Adj.qm) k c s,
+    Adj.Inv m /\ Adj.energy_adj (AdjSubstAll.substitute_variables k c m) s <> Adj.energy_adj m (fun i => k * s i + c).
+Proof. exact AdjSubstAllFacts.substitute_variables_self_loop_refuted. Qed.
+Print Assumptions C02_substitute_variables_self_loop_refuted.
+
+(* ---------- pybqm.py pyBQM.change_vartype (dict back-end), proved over the five multipliers that
+   translators/pybqm_multipliers.py extracts from the source into Gen/Gen_PyBQM.v ---------- *)
+Theorem C02_pybqm_change_vartype_energy :
+  forall (t : Gen_PyBQM.pb_target) (m : PyBqm.pybqm) (y : sample),
+    PyBqmFacts.pb_wf m ->
+    energy (PyBqm.pb_abs (PyBqm.pb_change_vartype t m)) y = energy (PyBqm.pb_abs m) (PyBqmFacts.pb_target_map t y).
+Proof. exact PyBqmFacts.pb_change_vartype_energy. Qed.
+Print Assumptions C02_pybqm_change_vartype_energy.
+
+Theorem C02_pybqm_change_vartype_to_binary :
+  forall (m : PyBqm.pybqm) (y : sample), PyBqmFacts.pb_wf m ->
+    energy (PyBqm.pb_abs (PyBqm.pb_change_vartype Gen_PyBQM.ToBinary m)) y = energy (PyBqm.pb_abs m) (fun v => two * y v - 1).
+Proof. exact PyBqmFacts.pb_change_vartype_energy_binary. Qed.
+Print Assumptions C02_pybqm_change_vartype_to_binary.
+
+Theorem C02_pybqm_change_vartype_to_spin :
+  forall (m : PyBqm.pybqm) (y : sample), PyBqmFacts.pb_wf m ->
+    energy (PyBqm.pb_abs (PyBqm.pb_change_vartype Gen_PyBQM.ToSpin m)) y = energy (PyBqm.pb_abs m) (fun v => (y v + 1) * half).
+Proof. exact PyBqmFacts.pb_change_vartype_energy_spin. Qed.
+Print Assumptions C02_pybqm_change_vartype_to_spin.
+
+Theorem C02_pybqm_change_vartype_wf :
+  forall t (m : PyBqm.pybqm), PyBqmFacts.pb_wf m -> PyBqmFacts.pb_wf (PyBqm.pb_change_vartype t m).
+Proof. exact PyBqmFacts.pb_change_vartype_wf. Qed.
+Print Assumptions C02_pybqm_change_vartype_wf.
+
+(* there and back restores every stored entry and the offset exactly *)
+Theorem C02_pybqm_change_vartype_roundtrip :
+  forall t (m : PyBqm.pybqm), PyBqmFacts.pb_wf m ->
+    PyBqm.pb_change_vartype (PyBqmFacts.pb_other t) (PyBqm.pb_change_vartype t m) = m.
+Proof. exact PyBqmFacts.pb_change_vartype_roundtrip. Qed.
+Print Assumptions C02_pybqm_change_vartype_roundtrip.
+
+(* ---------- utilities.py ising_to_qubo / qubo_to_ising (the dict loops with their offset bookkeeping) ---------- *)
+Theorem C02_ising_to_qubo_energy :
+  forall (h : IsingQubo.hdict) (J : IsingQubo.qdict) off x,
+    NoDup (map fst h) -> NoDup (map fst J) -> IsingQuboFacts.no_self_key J -> IsingQuboFacts.binary_valued x ->
+    IsingQubo.qubo_energy (fst (IsingQubo.ising_to_qubo h J off)) (snd (IsingQubo.ising_to_qubo h J off)) x =
+    IsingQubo.ising_energy h J off (fun v => two * x v - 1).
+Proof. exact IsingQuboFacts.ising_to_qubo_energy. Qed.
+Print Assumptions C02_ising_to_qubo_energy.
+
+Theorem C02_qubo_to_ising_energy :
+  forall (Q : IsingQubo.qdict) off s,
+    NoDup (map fst Q) -> IsingQuboFacts.spin_valued s ->
+    IsingQubo.ising_energy (fst (fst (IsingQubo.qubo_to_ising Q off))) (snd (fst (IsingQubo.qubo_to_ising Q off)))
+                           (snd (IsingQubo.qubo_to_ising Q off)) s =
+    IsingQubo.qubo_energy Q off (fun v => (s v + 1) * half).
+Proof. exact IsingQuboFacts.qubo_to_ising_energy. Qed.
+Print Assumptions C02_qubo_to_ising_energy.
+
+(* there and back on coefficients (read with get-or-0: zero couplings are dropped, zero biases appear) *)
+Theorem C02_ising_qubo_roundtrip :
+  forall (h : IsingQubo.hdict) (J : IsingQubo.qdict) off,
+    NoDup (map fst h) -> NoDup (map fst J) -> IsingQuboFacts.no_self_key J ->
+    let r := IsingQubo.ising_to_qubo h J off in
+    let r' := IsingQubo.qubo_to_ising (fst r) (snd r) in
+    (forall v, IsingQubo.hget0 (fst (fst r')) v = IsingQubo.hget0 h v) /\
+    (forall k, IsingQubo.qget0 (snd (fst r')) k = IsingQubo.qget0 J k) /\
+    snd r' = off.
+Proof. exact IsingQuboFacts.ising_qubo_roundtrip. Qed.
+Print Assumptions C02_ising_qubo_roundtrip.
+
+(* FINDING (degenerate input): with a self key (u,u) in J the line `q[(u, v)] = 4. * bias` overwrites the
+   diagonal entry 2*h[u]; the hypothesis no_self_key is necessary *)
+Theorem C02_ising_to_qubo_self_key_refuted :
+  exists (h : IsingQubo.hdict) (J : IsingQubo.qdict) off x,
+    NoDup (map fst h) /\ NoDup (map fst J) /\ IsingQuboFacts.binary_valued x /\
+    IsingQubo.qubo_energy (fst (IsingQubo.ising_to_qubo h J off)) (snd (IsingQubo.ising_to_qubo h J off)) x <>
+    IsingQubo.ising_energy h J off (fun v => two * x v - 1).
+Proof. exact IsingQuboFacts.ising_to_qubo_self_key_refuted. Qed.
+Print Assumptions C02_ising_to_qubo_self_key_refuted.
+
+(* BQM.to_qubo / to_ising / from_qubo / from_ising *)
+Theorem C02_to_qubo_energy :
+  forall p x, IsingQuboFacts.no_self_loop p -> NoDup (map fst (p_lin p)) -> IsingQuboFacts.binary_valued x ->
+    IsingQubo.qubo_energy (fst (IsingQubo.to_qubo_of_poly p)) (snd (IsingQubo.to_qubo_of_poly p)) x = energy p x.
+Proof. exact IsingQuboFacts.to_qubo_energy. Qed.
+Print Assumptions C02_to_qubo_energy.
+
+Theorem C02_to_ising_energy :
+  forall p s,
+    IsingQubo.ising_energy (fst (fst (IsingQubo.to_ising_of_poly p))) (snd (fst (IsingQubo.to_ising_of_poly p)))
+                           (snd (IsingQubo.to_ising_of_poly p)) s = energy p s.
+Proof. exact IsingQuboFacts.to_ising_energy. Qed.
+Print Assumptions C02_to_ising_energy.
+
+Theorem C02_from_qubo_energy :
+  forall Q off x, IsingQuboFacts.binary_valued x -> energy (IsingQubo.from_qubo Q off) x = IsingQubo.qubo_energy Q off x.
+Proof. exact IsingQuboFacts.from_qubo_energy. Qed.
+Print Assumptions C02_from_qubo_energy.
+
+Theorem C02_from_ising_energy :
+  forall h J off s, IsingQuboFacts.spin_valued s -> energy (IsingQubo.from_ising h J off) s = IsingQubo.ising_energy h J off s.
+Proof. exact IsingQuboFacts.from_ising_energy. Qed.
+Print Assumptions C02_from_ising_energy.
+
+(* ---------- SampleSet.change_vartype: the energies reported after the conversion are the energies of the
+   converted model at the converted rows (plus the requested offset) ---------- *)
+Theorem C02_sampleset_change_vartype_energy_consistent :
+  forall target off (s s' : SSet.sset) p,
+    SSetVartype.ss_change_vartype target off s = SSet.Ok s' ->
+    NoDup (SSet.labels s) -> SamplesFacts.mentions_only p (SSet.labels s) ->
+    (forall r, In r (SSet.rws s) -> SSetVartypeFacts.row_ok p s r) ->
+    (SSet.vt s = SPIN -> target = BINARY -> forall r, In r (SSet.rws s) -> Forall SSetVartypeFacts.spin_val (SSet.vals r)) ->
+    forall r', In r' (SSet.rws s') ->
+      SSet.en r' = energy (SSetVartype.convert_model (SSet.vt s) target (SSet.labels s) p)
+                          (Samples.row_sample (SSet.labels s') (SSet.vals r')) + off.
+Proof. exact SSetVartypeFacts.ss_change_vartype_energy_consistent. Qed.
+Print Assumptions C02_sampleset_change_vartype_energy_consistent.
+
+Theorem C02_sampleset_change_vartype_roundtrip_spin :
+  forall e (s s1 s2 : SSet.sset),
+    SSet.vt s = SPIN -> (forall r, In r (SSet.rws s) -> Forall SSetVartypeFacts.spin_val (SSet.vals r)) ->
+    SSetVartype.ss_change_vartype BINARY e s = SSet.Ok s1 ->
+    SSetVartype.ss_change_vartype SPIN (- e) s1 = SSet.Ok s2 -> s2 = s.
+Proof. exact SSetVartypeFacts.ss_change_vartype_roundtrip_spin. Qed.
+Print Assumptions C02_sampleset_change_vartype_roundtrip_spin.
+
+Theorem C02_sampleset_change_vartype_roundtrip_binary :
+  forall e (s s1 s2 : SSet.sset),
+    SSet.vt s = BINARY -> (forall r, In r (SSet.rws s) -> Forall SSetVartypeFacts.binary_val (SSet.vals r)) ->
+    SSetVartype.ss_change_vartype SPIN e s = SSet.Ok s1 ->
+    SSetVartype.ss_change_vartype BINARY (- e) s1 = SSet.Ok s2 -> s2 = s.
+Proof. exact SSetVartypeFacts.ss_change_vartype_roundtrip_binary. Qed.
+Print Assumptions C02_sampleset_change_vartype_roundtrip_binary.
+
+(* labels, info, occurrences, tags, extra vectors, row order and count are untouched; energies shift by the offset *)
+Theorem C02_sampleset_change_vartype_preserves :
+  forall target off (s s' : SSet.sset),
+    SSetVartype.ss_change_vartype target off s = SSet.Ok s' \/ SSetVartype.ss_change_vartype target off s = SSet.Fail s' ->
+    SSet.labels s' = SSet.labels s /\ SSet.info s' = SSet.info s /\ SSet.fields s' = SSet.fields s /\
+    map SSetVartypeFacts.row_frame (SSet.rws s') = map SSetVartypeFacts.row_frame (SSet.rws s) /\
+    length (SSet.rws s') = length (SSet.rws s) /\
+    map SSet.en (SSet.rws s') = map (fun r => SSet.en r + off) (SSet.rws s) /\
+    (SSetVartype.ss_change_vartype target off s = SSet.Ok s' -> SSet.vt s' = target) /\
+    (SSetVartype.ss_change_vartype target off s = SSet.Fail s' -> SSet.vt s' = SSet.vt s).
+Proof. exact SSetVartypeFacts.ss_change_vartype_preserves. Qed.
+Print Assumptions C02_sampleset_change_vartype_preserves.
 
 Example C02_example :
   let p := mkPoly (qc 1 2) [(0%nat, qc 3 1); (1%nat, qc (-1) 1)] [(0%nat, 1%nat, qc 2 1)] in
